@@ -307,6 +307,10 @@ func handleHotRestart(s *Session, hdr header, buf []byte) (int, bool, error) {
 	if len(buf) < epochIDLen {
 		return 0, true, nil
 	}
+	// only a client session owned by a SessionManager takes part in a hot restart
+	if s.manager == nil {
+		return headerSize + epochIDLen, false, ErrInvalidMsgType
+	}
 	epochID := binary.BigEndian.Uint64(buf[:epochIDLen])
 	s.logger.warnf("%s [epoch:%d] receive hot restart", s.sessionName(), epochID)
 
@@ -320,6 +324,10 @@ func handleHotRestart(s *Session, hdr header, buf []byte) (int, bool, error) {
 func handleHotRestartAck(s *Session, hdr header, buf []byte) (int, bool, error) {
 	if len(buf) < epochIDLen {
 		return 0, true, nil
+	}
+	// only a server session owned by a Listener expects the acknowledgement
+	if s.listener == nil {
+		return headerSize + epochIDLen, false, ErrInvalidMsgType
 	}
 	epochID := binary.BigEndian.Uint64(buf[:epochIDLen])
 	s.logger.warnf("%s [epoch:%d] receive hot restart ack", s.name, epochID)
